@@ -105,7 +105,9 @@ func genCondHist(r *rand.Rand, id string, tier string) string {
 		case 9:
 			ops = append(ops, fmt.Sprintf("nnest %d", r.Intn(2)))
 		case 10:
-			ops = append(ops, []string{"nopad 1", "nopad 0", "paren 1", "paren 0", "enc1 " + hx("\""), "enc2 " + hx("<") + " " + hx(">")}[r.Intn(6)])
+			// (enc0 drops every pair: the next rendering shows the pairs set after it, however many there were before)
+			ops = append(ops, []string{"nopad 1", "nopad 0", "paren 1", "paren 0", "enc1 " + hx("\""), "enc2 " + hx("<") + " " + hx(">"), "enc0", "enc1 " + hx("'"), "enc2 " + hx("[") + " " + hx("]"), "enc0",
+				"reenc1 " + hx("'"), "reenc1 " + hx("\""), "reenc2 " + hx("[") + " " + hx("]"), "reenc2 " + hx("<") + " " + hx(">"), "reenc1 " + hx("|")}[r.Intn(15)])
 		case 11:
 			ops = append(ops, fmt.Sprintf("err %d", r.Intn(2)*7))
 		case 12:
@@ -198,6 +200,14 @@ func runCondHist(payload string) string {
 			case "enc1":
 				c.SetEncap(unhx(t[1]))
 			case "enc2":
+				c.SetEncap([]string{unhx(t[1]), unhx(t[2])})
+			case "enc0":
+				c.SetEncap()
+			case "reenc1": // dropped and set again in one go: nothing is looked at in between
+				c.SetEncap()
+				c.SetEncap(unhx(t[1]))
+			case "reenc2":
+				c.SetEncap()
 				c.SetEncap([]string{unhx(t[1]), unhx(t[2])})
 			case "err":
 				c.SetErr(errOf(atoi64(t[1])))
